@@ -603,6 +603,39 @@ func joinRecv(fn *ssa.Function, op an.ChanOp) (bool, string) {
 	if !ok {
 		return false, ""
 	}
+	// a completion channel: never sent on, closed by a `defer close(ch)` in the entry block of a closure
+	// that owner starts with "go" outside loops — the receive returns when that goroutine does
+	if len(sendsOn(mc)) == 0 {
+		closers := 0
+		for _, f := range an.WithAnon(owner) {
+			if f == owner {
+				continue
+			}
+			an.Instrs(f, func(in ssa.Instruction) {
+				d, ok := in.(*ssa.Defer)
+				if !ok {
+					return
+				}
+				if b, isB := d.Call.Value.(*ssa.Builtin); !isB || b.Name() != "close" || len(d.Call.Args) != 1 || an.MakeChanOf(d.Call.Args[0]) != mc {
+					return
+				}
+				if d.Block() != f.Blocks[0] {
+					return
+				}
+				an.Instrs(owner, func(in2 ssa.Instruction) {
+					if g, ok := in2.(*ssa.Go); ok {
+						if cl, ok := g.Call.Value.(*ssa.MakeClosure); ok && cl.Fn == ssa.Value(f) && !an.InLoop(g.Block()) {
+							closers++
+						}
+					}
+				})
+			})
+		}
+		if closers == 1 {
+			return true, "join: receive from a channel that is only ever closed, by the deferred close of the one goroutine " + owner.Name() + " starts"
+		}
+		return false, ""
+	}
 	// senders: closures started with "go" in owner, each with exactly one send on mc outside loops
 	senders := 0
 	for _, s := range sendsOn(mc) {
